@@ -321,4 +321,15 @@ inductive Sym
 def symOps : HashOps Sym :=
   { pair := Sym.pair, emptyLeaf := Sym.emptyLeaf, truthy := fun h => h != Sym.empty }
 
+/-- non-empty byte strings (what SHA-256d produces is 32 bytes long): the carrier on which Python's
+    `if self[i]:` is the same test as `is not None` -/
+abbrev NEBytes := { b : List UInt8 // b ≠ [] }
+
+/-- an instance with Python truthiness (`h != b""`) over non-empty byte strings; `pair`/`emptyLeaf` are
+    placeholders (framing only), used to show `StrictPresence … Cfg.asIs` is satisfiable -/
+def neBytesOps : HashOps NEBytes :=
+  { pair := fun a b => ⟨0 :: (a.val ++ b.val), by simp⟩,
+    emptyLeaf := fun _ => ⟨[1], by simp⟩,
+    truthy := fun h => h.val != [] }
+
 end Tahoe.Base.Merkle
